@@ -789,6 +789,21 @@ func (sc tcpScript) caseToks() string {
 	return fmt.Sprintf("tcp max=%d hosts=%s lb=%s idle=%d %s", sc.max, h, sc.lb, idle, strings.Join(sc.steps, ","))
 }
 
+// tcpFixed: scripts run first on every seed (the boundary scenarios of the property, including the minimised failing
+// inputs of past seeded changes: failed dials on a limited cluster followed by the upstream's recovery).
+var tcpFixed = []tcpScript{
+	{max: 1, hosts: "L", lb: "rr", steps: []string{"H0-", "A", "H0+", "A", "C1"}},
+	{max: 2, hosts: "DD", lb: "rr", steps: []string{"A", "A", "A"}},
+	{max: 1, hosts: "DDDDD", lb: "rnd", steps: []string{"A", "A"}},
+	{max: 1, hosts: "T", lb: "rr", steps: []string{"A", "A"}},
+	{max: 1, hosts: "L", lb: "rr", steps: []string{"A", "A", "C0", "A", "U2"}},
+	{max: 2, hosts: "L", lb: "rr", steps: []string{"+", "A", "A", "-", "A", "V0", "R2"}},
+	{max: 0, hosts: "LD", lb: "rnd", steps: []string{"A", "A", "C0", "U1"}},
+	{max: 2, hosts: "L", lb: "rr", idle: true, steps: []string{"A", "A", "I"}},
+	{max: 1, hosts: "LL", lb: "rr", steps: []string{"F0", "F1", "A", "G0", "A", "C1"}},
+	{max: 1, hosts: "", lb: "rr", steps: []string{"A", "N"}},
+}
+
 // RunTcp generates and runs n session scripts.
 func RunTcp(c *hx.Ctx, n int) {
 	r := c.Rng.Fork()
@@ -797,6 +812,9 @@ func RunTcp(c *hx.Ctx, n int) {
 	defer func() { types.DefaultConnReadTimeout = oldRT }()
 	for i := 0; i < n; i++ {
 		sc := genTcpScript(r, i)
+		if i < len(tcpFixed) {
+			sc = tcpFixed[i]
+		}
 		fr := r.Fork()
 		var out string
 		ok := false
